@@ -202,7 +202,7 @@ class String(DataType[str]):
     def __init__(self, value: str = "") -> None:
         """Initialize a new null-terminated string data type."""
         super().__init__(value)
-        self._size = len(self.value) + 1
+        self._size = len(self.value.encode()) + 1
 
     def pack(self) -> bytes:
         """Pack the data."""
@@ -210,8 +210,9 @@ class String(DataType[str]):
 
     def unpack(self, data: bytes) -> None:
         """Unpack the data."""
-        self._value = data.split(b"\0", 1)[0].decode("utf-8", "replace")
-        self._size = len(self.value) + 1
+        value = data.split(b"\0", 1)[0]
+        self._value = value.decode("utf-8", "replace")
+        self._size = len(value) + 1
 
 
 class VarBytes(DataType[bytes]):
@@ -242,7 +243,7 @@ class VarString(DataType[str]):
     def __init__(self, value: str = "") -> None:
         """Initialize a new variable length bytes data type."""
         super().__init__(value)
-        self._size = len(value) + 1
+        self._size = len(value.encode()) + 1
 
     def pack(self) -> bytes:
         """Pack the data."""
